@@ -21,6 +21,8 @@ can be printed as a path.
 """
 
 import ast
+import os
+import time
 
 from .astutil import FUNC_TYPES, attr_chain, dotted, norm
 from .loader import Undecided
@@ -373,6 +375,9 @@ class Interp:
         self.in_progress = set()
         self.changed = False
         self.steps = 0
+        self.max_steps = int(os.environ.get("TTSA_MAX_STEPS", "2000000"))   # per interpretation: beyond it the run is undecided, never silently cut short
+        self.max_seconds = float(os.environ.get("TTSA_MAX_SECONDS", "240"))
+        self.t0 = time.time()
         self.functions = set()
         self.track_return_sites = False
         self.round_cache = {}
@@ -405,7 +410,7 @@ class Interp:
 
     def _eval(self, e, st, fr):
         self.steps += 1
-        if self.steps > 2_000_000:
+        if self.steps > self.max_steps or (self.steps & 1023 == 0 and time.time() - self.t0 > self.max_seconds):
             raise Undecided("abstract interpretation exceeded its step budget")
         d = self.domain
         if e is None:
@@ -448,9 +453,14 @@ class Interp:
                         return [val(st.get(key), st)]
                     return [val(TOP, st)]
             out = []
+            of_value = getattr(d, "attr_of_value", None)
             for r in self.eval(e.value, st, fr):
                 if r.kind == "exc":
                     out.append(r)
+                    continue
+                got = of_value(self, r.value, e.attr, r.state, fr) if of_value is not None else None
+                if got is not None:
+                    out.extend(got)
                 else:
                     v = d.load_attr(["<value>", e.attr], r.state, fr)
                     out.append(val(TOP if v is None else v, r.state))
@@ -1178,7 +1188,7 @@ class Interp:
             return self._dd(out)
         if isinstance(s, ast.Return):
             out = []
-            for r in self.eval(s.value, st, fr):
+            for r in self.eval(s.value, st, fr, share=isinstance(s.value, (ast.Name, ast.Attribute))):   # returning a list / dict the object keeps: the caller gets that object
                 if r.kind == "exc":
                     out.append(("raise", r.value, r.state))
                 else:
